@@ -95,6 +95,13 @@ def parseEv (op : String) : Option Ev :=
       let m ← (if m == "-" then some none else m.toNat?.map some)
       let p ← (if p == "-" then some none else p.toNat?.map some)
       pure (.modify (unTilde a) id h m p)
+  -- the same transitions driven through the daemon's event handlers (the harness prints "ev" + dump)
+  | ["evpending", a] => some (.pending (unTilde a))
+  | ["evconnect", a, id, _] => do let id ← id.toNat?; pure (.connected (unTilde a) id)
+  | ["evintro", a, id, m, p] => do
+      let id ← id.toNat?; let m ← m.toNat?; let p ← p.toNat?; pure (.introduced (unTilde a) id m p)
+  | ["evdisconnect", a, id] => do let id ← id.toNat?; pure (.remove (unTilde a) id)
+  | ["evfail", a] => some (.remove (unTilde a) 0)
   | _ => none
 
 structure DState where
@@ -109,7 +116,7 @@ def stepLine (d : DState) (op impl : String) : DState × String × Verdict :=
   | some ev =>
     let envOK := d.envOK && decide (EnvOK d.s ev)
     let (s', out) := step goEnv d.s ev
-    let model := if out == Out.panic then "panic" else showOut out ++ dump s'
+    let model := if out == Out.panic then "panic" else (if op.startsWith "ev" then "ev" else showOut out) ++ dump s'
     if model == normImpl impl then ({ s := s', envOK := envOK }, model, .unknown)
     else match parseDump impl with
       | none => ({ s := s', envOK := envOK }, model, .unknown)
